@@ -907,6 +907,14 @@ Variables lower upper : str -> str.
 Variable parse_tree : mapper -> tz -> res (option T * mapper * tz).
 Variable set_label : T -> option str -> T.
 Variable add_comments : T -> list str -> T.
+(* Two sites with a recorded finding are modelled in both forms; the correspondence run decides
+   which form the working tree has by replaying the finding on the implementation.
+     v_attach     - TreeList / Tree `_parse_and_create_from_stream` attach their namespace to the
+                    reader (repaired form) instead of only handing it over through the
+                    taxon-namespace factory (current form: false)
+     v_keep_label - Tree.get keeps the tree name read from the source when no `label` keyword is
+                    given (repaired form) instead of assigning None (current form: false) *)
+Variables v_attach v_keep_label : bool.
 
 Definition doc : Type := (list token * tend)%type.
 Definition doc_tz (d : doc) : tz := tz_init (fst d) (snd d).
@@ -914,8 +922,8 @@ Definition doc_tz (d : doc) : tz := tz_init (fst d) (snd d).
 Definition doc_fuel (d : doc) : nat := (length (fst d) + 4)%nat.
 
 (* the configurations the routes pass to DataReader._read *)
-Definition cfg_list : cfg := mkCfg (mkNsCfg false (FacFixed true)) TLFixed.     (* TreeList.get / .read *)
-Definition cfg_blocks : cfg := mkCfg (mkNsCfg false (FacFixed true)) TLNew.     (* Tree.get; TreeList.get(collection_offset=..) *)
+Definition cfg_list : cfg := mkCfg (mkNsCfg v_attach (FacFixed true)) TLFixed.     (* TreeList.get / .read *)
+Definition cfg_blocks : cfg := mkCfg (mkNsCfg v_attach (FacFixed true)) TLNew.     (* Tree.get; TreeList.get(collection_offset=..) *)
 Definition cfg_yield : cfg := mkCfg (mkNsCfg true (FacFixed false)) TLNew.      (* NexusTreeDataYielder; DataSet.get(taxon_namespace=ns) *)
 Definition cfg_dataset : cfg := mkCfg (mkNsCfg false FacNew) TLNew.             (* DataSet.get *)
 
@@ -983,8 +991,9 @@ Definition treelist_get_off (sch : schema) (c : option Z) (k : option Z) (d : do
     select_offsets (fst r) (match c with Some c => c | None => 0 end) k
   end.
 
-(* Tree.get(collection_offset=c, tree_offset=k): None means 0; the label keyword (None) is
-   assigned to the tree *)
+(* Tree.get(collection_offset=c, tree_offset=k): None means 0; `tree.label = label` with the
+   label keyword None (current form) *)
+Definition got_label (t : T) : T := if v_keep_label then t else set_label t None.
 Definition select_tree (blocks : list (list T)) (c k : Z) : res T :=
   if is_nil blocks then Err ValueErr
   else match py_index blocks c with
@@ -993,7 +1002,7 @@ Definition select_tree (blocks : list (list T)) (c k : Z) : res T :=
          if is_nil tl then Err ValueErr
          else match py_index tl k with
               | None => Err IndexErr
-              | Some t => Ok (set_label t None)
+              | Some t => Ok (got_label t)
               end
        end.
 Definition tree_get (sch : schema) (c k : option Z) (d : doc) : res T :=
@@ -1185,6 +1194,8 @@ Inductive robs : Type :=
 | OBlocks (r : res (list (list sktree))).
 
 Record case : Type := mkCase {
+  k_vattach : bool;                (* which form the working tree has, see Section Routes *)
+  k_vkeep : bool;
   k_nexus : bool;
   k_lower : list (Z * Z);          (* non-ASCII (upper, lower) pairs occurring in the document *)
   k_toks : list token;
@@ -1204,16 +1215,16 @@ Let sch := if k_nexus k then Nexus else Newick.
 Let d : doc := (k_toks k, k_end k).
 Let PT := sk_parse_tree lo.
 
-Definition m_treelist_read := treelist_read sktree lo up PT sk_set_label sk_add_comments sch.
+Definition m_treelist_read := treelist_read sktree lo up PT sk_set_label sk_add_comments (k_vattach k) sch.
 Definition m_yield := yield_from_files sktree lo up PT sk_set_label sk_add_comments sch.
 
 Definition route_run (r : route) : robs :=
   match r with
-  | RList => OList (treelist_get sktree lo up PT sk_set_label sk_add_comments sch d)
-  | RListOff c kk => OTrees (treelist_get_off sktree lo up PT sk_set_label sk_add_comments sch c kk d)
-  | RTree c kk => OTree (tree_get sktree lo up PT sk_set_label sk_add_comments sch c kk d)
+  | RList => OList (treelist_get sktree lo up PT sk_set_label sk_add_comments (k_vattach k) sch d)
+  | RListOff c kk => OTrees (treelist_get_off sktree lo up PT sk_set_label sk_add_comments (k_vattach k) sch c kk d)
+  | RTree c kk => OTree (tree_get sktree lo up PT sk_set_label sk_add_comments (k_vattach k) (k_vkeep k) sch c kk d)
   | RRead ns0 => OList (m_treelist_read ns0 d)
-  | RReadTwice ns0 => OList (treelist_read_twice sktree lo up PT sk_set_label sk_add_comments sch ns0 d)
+  | RReadTwice ns0 => OList (treelist_read_twice sktree lo up PT sk_set_label sk_add_comments (k_vattach k) sch ns0 d)
   | RYield ns0 => let '(out, r) := m_yield ns0 d in OYield out r
   | RArray kk =>
     let '(out, r) := treearray_read sktree lo up PT sk_set_label sk_add_comments sch kk [] d in
